@@ -9,8 +9,14 @@ impl Format for &ParolLs {
     fn format(&self, options: &FormattingOptions, comments: Comments) -> Vec<TextEdit> {
         let range = Rng::new(Range::default()).extend_to_end().0;
         let fmt_options = options.into();
-        let (new_text, comments) = self.txt(&fmt_options, comments);
-        debug_assert!(comments.is_empty());
+        let (mut new_text, comments) = self.txt(&fmt_options, comments);
+        if !comments.is_empty() {
+            // Comments behind the last token of the grammar must not get lost
+            if !new_text.ends_with('\n') {
+                new_text.push('\n');
+            }
+            new_text.push_str(&comments.handle_comments(&fmt_options));
+        }
         vec![TextEdit { range, new_text }]
     }
 }
